@@ -77,7 +77,11 @@ func TestDbgPaths(t *testing.T) {
 					}
 					return true
 				})
-				for _, p := range newNctx(decls).normBlock(fd, lb.List) {
+				ncl := newNctx(decls)
+				if w := os.Getenv("DBG_WITHOUT"); w != "" {
+					ncl = ncl.without(strings.Split(w, ",")...)
+				}
+				for _, p := range ncl.normBlock(fd, lb.List) {
 					fmt.Println(p.String())
 				}
 				continue
